@@ -212,7 +212,7 @@ def run(ctx):
             for ind in ("", "  ", "      ", "\t"):
                 jobs.append(("single", carrier, list(b), ind, True))
     # leaderless form: unindented, lines start with a letter
-    letter = ["word", "two words.", "café → ✓", "tab\tin", "trailing  "]
+    letter = ["word", "two words.", "café → ✓", "tab\tin", "trailing  ", "See issue #12 [x] here", "C#-style; a]b"]
     for carrier in CARRIERS:
         for b in bodies(letter, 2):
             jobs.append(("single", carrier, list(b), "", False))
